@@ -948,7 +948,7 @@ v("d60-twin-and-via-helper", "C24", OS,
 
 EC = "eval_cache.py"
 v("d61-key-without-types", "C25", EC, '    return f"{d.shape}_{list(d.columns)}_{hash_str}_{type_str}"\n', '    return f"{d.shape}_{list(d.columns)}_{hash_str}"\n')
-v("d61-key-without-dtypes", "C25", EC, "    col_types = [str(t) for t in d.dtypes]\n", "    col_types = []\n")
+v("d61-key-without-dtypes", "C25", EC, "    col_types = [\n        str(t) if str(t) != \"category\" else f\"category[{t.categories.dtype}]\"\n        for t in d.dtypes\n    ]\n", "    col_types = []\n")
 v("d61-key-without-cell-types", "C25", EC, "        [type(v).__name__ for v in d.iloc[:, j]]\n", "        [len(d.iloc[:, j])]\n")
 
 v("d62-absent-arg-specs-dereferenced", "C22", DS,
@@ -991,8 +991,8 @@ v("d85-sqlite-modulo-through-double", "C05", "SQLite.py",
   "        f\"(CASE WHEN (typeof({e0}) = 'integer') AND (typeof({e1}) = 'integer')\"\n        f\" THEN ((({e0} % {e1}) + {e1}) % {e1})\"\n        f\" ELSE ({e0} - FLOOR({e0} / (1.0 * {e1})) * {e1}) END)\"\n",
   "        f\"({e0} - FLOOR({e0} / (1.0 * {e1})) * {e1})\"\n")
 v("d88-hash-reads-columns-by-label", "C25", EC,
-  "        [type(v).__name__ for v in d.iloc[:, j]]\n        for j in range(d.shape[1])\n        if str(d.iloc[:, j].dtype) == \"object\"\n",
-  "        [type(v).__name__ for v in d[c]]\n        for c in d.columns\n        if str(d[c].dtype) == \"object\"\n")
+  "        [type(v).__name__ for v in d.iloc[:, j]]\n        for j in range(d.shape[1])\n        if str(d.iloc[:, j].dtype) in (\"object\", \"category\")\n",
+  "        [type(v).__name__ for v in d[c]]\n        for c in d.columns\n        if str(d[c].dtype) in (\"object\", \"category\")\n")
 v("d89-bound-kwargs-not-flattened", "C22", DS,
   "                    if p_def.kind is p_def.VAR_KEYWORD:\n                        # keywords caught by **kwargs are named arguments\n                        extra_keywords = check_kwargs.pop(p_name, {})\n                    elif p_def.kind is p_def.VAR_POSITIONAL:",
   "                    if p_def.kind is p_def.VAR_POSITIONAL:")
@@ -1153,3 +1153,10 @@ v("d141-not-is-identity", "C05", PB, "    return a == False\n", "    return a !=
 v("d142-function-form-direct", "C13", PBLK, "                        return getattr(args[0], op_name)(*args[1:])\n", "                        pass\n")
 v("d143-argument-placeholder-walked", "C13", PBLK, "                    args = [_r_walk_lark_tree(ai) for ai in raw_args if ai is not None]", "                    args = [_r_walk_lark_tree(ai) for ai in raw_args]")
 v("d144-list-items-raw", "C12", ER2, "        self.value = [vi if isinstance(vi, PreTerm) else Value(vi) for vi in value]", "        self.value = list(value)")
+
+v("d145-polars-join-order-unstated", "C19", PM, "                suffix=\"_da_right_tmp\",\n                **_join_order_args,\n", "                suffix=\"_da_right_tmp\",\n")
+v("d145-polars-swapped-join-order-unstated", "C19", PM, "                suffix=\"_da_left_tmp\",\n                **_join_order_args,\n", "                suffix=\"_da_left_tmp\",\n")
+
+ECF = "eval_cache.py"
+v("d146-category-cells-not-typed", "C25", ECF, "        if str(d.iloc[:, j].dtype) in (\"object\", \"category\")", "        if str(d.iloc[:, j].dtype) in (\"object\",)")
+v("d146-category-value-dtype-missing", "C25", ECF, "        str(t) if str(t) != \"category\" else f\"category[{t.categories.dtype}]\"\n", "        str(t)\n")
